@@ -305,3 +305,4 @@ pub mod unstable_net_report {
 #[cfg(any(test, feature = "test-utils"))]
 pub mod test_utils;
 #[cfg(iroh_verif)] pub mod verif_hooks_netrep;
+#[cfg(iroh_verif)] pub mod verif_hooks_ident;
